@@ -244,6 +244,13 @@ class Fxp():
         self._update_dtype()
 
         # store the value
+        if raw and not _initialized and isinstance(n_frac, int) and isinstance(self.n_frac, int) and self.n_frac != n_frac:
+            # (raw codes given as decimal integer strings are integers like any other)
+            _dec_int = re.compile(r'\s*[+-]?\d+\s*')
+            if isinstance(val, str) and _dec_int.fullmatch(val):
+                val = int(val)
+            elif isinstance(val, (list, tuple)) and len(val) > 0 and all(isinstance(v, str) and _dec_int.fullmatch(v) for v in val):
+                val = [int(v) for v in val]
         if raw and not _initialized and isinstance(n_frac, int) and isinstance(self.n_frac, int) and self.n_frac != n_frac \
                 and isinstance(val, (int, float, complex, np.integer, np.floating, np.complexfloating, list, tuple, np.ndarray)):
             # (the word was limited and the fraction length shortened by the size search: the raw value was given for the fraction length asked)
